@@ -297,18 +297,24 @@ theorem scanFn_some {a : Array UInt8} : ∀ (fuel i lastOp : Nat) (pend : List N
 
 def isJumpOp (op : Nat) : Bool := op == OpJump || op == OpJumpFalsy || op == OpAndJump || op == OpOrJump
 
+/-- CONSTANT and CLOSURE: the first (2-byte) operand indexes the constant pool -/
+def isConstOp (op : Nat) : Bool := op == OpConstant || op == OpClosure
+
 /-- operand condition of the instruction at `p`: the operand of a jump-class instruction and both
     operands of SETUPTRY are instruction boundaries (0 = "no catch" is one) -/
-def TgtOK (a : Array UInt8) (p op : Nat) : Prop :=
+def TgtOK (nc : Nat) (a : Array UInt8) (p op : Nat) : Prop :=
   (isJumpOp op = true → Walk a 0 (readBE a (p + 1) 4)) ∧
-  (op = OpSetupTry → Walk a 0 (readBE a (p + 1) 4) ∧ Walk a 0 (readBE a (p + 5) 4))
+  (op = OpSetupTry → Walk a 0 (readBE a (p + 1) 4) ∧ Walk a 0 (readBE a (p + 5) 4)) ∧
+  (isConstOp op = true → readBE a (p + 1) 2 < nc)
 
-def TargetsOK (a : Array UInt8) : Prop := ∀ p op, Bd a p → a[p]? = some op → TgtOK a p op.toNat
+/-- `nc` is the size of the constant pool: the first operand of CONSTANT / CLOSURE is below it -/
+def TargetsOK (nc : Nat) (a : Array UInt8) : Prop := ∀ p op, Bd a p → a[p]? = some op → TgtOK nc a p op.toNat
 
 /-- what `emit` / `changeOperand` must be given for such an instruction -/
-def ArgsOK (a : Array UInt8) (op : Nat) (args : List Int) : Prop :=
+def ArgsOK (nc : Nat) (a : Array UInt8) (op : Nat) (args : List Int) : Prop :=
   (isJumpOp op = true → ∃ t : Nat, args = [(t : Int)] ∧ Walk a 0 t) ∧
-  (op = OpSetupTry → ∃ t1 t2 : Nat, args = [(t1 : Int), (t2 : Int)] ∧ Walk a 0 t1 ∧ Walk a 0 t2)
+  (op = OpSetupTry → ∃ t1 t2 : Nat, args = [(t1 : Int), (t2 : Int)] ∧ Walk a 0 t1 ∧ Walk a 0 t2) ∧
+  (isConstOp op = true → ∃ (i : Nat) (rest : List Int), args = (i : Int) :: rest ∧ i < nc)
 
 theorem readBE4 (a : Array UInt8) (i : Nat) : readBE a i 4 =
     (((a[i]?.getD 0).toNat * 256 + (a[i + 1]?.getD 0).toNat) * 256 + (a[i + 2]?.getD 0).toNat) * 256
@@ -391,6 +397,62 @@ theorem inst_read_try {a : Array UInt8} {p : Nat} {args : List Int} {opb : UInt8
     · exact_mod_cast hr.1
     · exact_mod_cast hr.2
 
+
+theorem readBE2 (a : Array UInt8) (i : Nat) : readBE a i 2 = (a[i]?.getD 0).toNat * 256 + (a[i + 1]?.getD 0).toNat := by
+  simp [readBE, List.range, List.range.loop]
+
+theorem readBE2_congr {a a' : Array UInt8} {i : Nat} (h : ∀ k, k < 2 → a'[i + k]? = a[i + k]?) :
+    readBE a' i 2 = readBE a i 2 := by
+  rw [readBE2, readBE2]
+  have h0 := h 0 (by omega); have h1 := h 1 (by omega)
+  simp only [Nat.add_zero] at h0
+  rw [h0, h1]
+
+theorem isConstOp_cases {op : Nat} (h : isConstOp op = true) : op = OpConstant ∨ op = OpClosure := by
+  simpa [isConstOp] using h
+
+theorem opWidth_const {op : Nat} (h : isConstOp op = true) : 2 ≤ opWidth op := by
+  rcases isConstOp_cases h with h | h <;> subst h <;> decide
+
+/-- decoding the constant index of a CONSTANT / CLOSURE instruction found in the stream -/
+theorem inst_read_const {a : Array UInt8} {p op : Nat} {args rest' : List Int} {opb : UInt8} {rest : List UInt8} {i : Nat}
+    (h : makeInstruction op args = .ok (opb :: rest)) (hc : isConstOp op = true) (ha : args = (i : Int) :: rest')
+    (hat : InstAt a p (opb :: rest)) : readBE a (p + 1) 2 = i := by
+  have hr := makeInstruction_read h
+  obtain ⟨rest2, hbs, hl⟩ := makeInstruction_ok h
+  injection hbs with _ hbs
+  subst hbs
+  rcases isConstOp_cases hc with hop | hop
+  · subst hop
+    have hw : operandWidths OpConstant = [2] := rfl
+    rw [hw] at hr
+    simp only [opWidth, hw, List.sum_cons, List.sum_nil] at hl
+    match rest, hl with
+    | [b0, b1], _ =>
+      simp only [readOperands, ha] at hr
+      have h0 := hat 1 (by simp); have h1 := hat 2 (by simp)
+      simp only [List.getElem?_cons_succ, List.getElem?_cons_zero] at h0 h1
+      rw [readBE2, h0, show p + 1 + 1 = p + 2 by omega, h1]
+      simp only [Option.getD_some]
+      have hr1 : Int.ofNat (beVal (List.take 2 [b0, b1])) = (i : Int) := by
+        injection hr
+      simp only [List.take, beVal, List.foldl, Nat.zero_mul, Nat.zero_add] at hr1
+      exact Int.ofNat.inj hr1
+  · subst hop
+    have hw : operandWidths OpClosure = [2, 1] := rfl
+    rw [hw] at hr
+    simp only [opWidth, hw, List.sum_cons, List.sum_nil] at hl
+    match rest, hl with
+    | [b0, b1, b2], _ =>
+      simp only [readOperands, ha] at hr
+      have h0 := hat 1 (by simp); have h1 := hat 2 (by simp)
+      simp only [List.getElem?_cons_succ, List.getElem?_cons_zero] at h0 h1
+      rw [readBE2, h0, show p + 1 + 1 = p + 2 by omega, h1]
+      simp only [Option.getD_some]
+      have hr1 : Int.ofNat (beVal (List.take 2 [b0, b1, b2])) = (i : Int) := by
+        injection hr
+      simp only [List.take, beVal, List.foldl, Nat.zero_mul, Nat.zero_add] at hr1
+      exact Int.ofNat.inj hr1
 
 theorem getElem?_lt_of_some {a : Array UInt8} {i : Nat} {b : UInt8} (h : a[i]? = some b) : i < a.size := by
   rcases Nat.lt_or_ge i a.size with h' | h'
@@ -485,16 +547,17 @@ theorem Walk.unpatch_inst {a : Array UInt8} {p j : Nat} {op : UInt8} {rest : Lis
 theorem opWidth_jump {op : Nat} (h : isJumpOp op = true) : opWidth op = 4 := by simp [opWidth, isJumpOp_widths h]
 
 /-- the operand condition of an instruction whose bytes are untouched carries over -/
-theorem TgtOK.transfer {a a' : Array UInt8} {p op : Nat} (h : TgtOK a p op) (hw : ∀ t, Walk a 0 t → Walk a' 0 t)
-    (hb : ∀ k, k < opWidth op → a'[p + 1 + k]? = a[p + 1 + k]?) : TgtOK a' p op := by
-  constructor
+theorem TgtOK.transfer {nc nc' : Nat} {a a' : Array UInt8} {p op : Nat} (h : TgtOK nc a p op) (hn : nc ≤ nc')
+    (hw : ∀ t, Walk a 0 t → Walk a' 0 t)
+    (hb : ∀ k, k < opWidth op → a'[p + 1 + k]? = a[p + 1 + k]?) : TgtOK nc' a' p op := by
+  refine ⟨?_, ?_, ?_⟩
   · intro hj
     have hwd := opWidth_jump hj
     rw [readBE4_congr (fun k hk => hb k (by omega))]
     exact hw _ (h.1 hj)
   · intro ht
     have hwd : opWidth op = 8 := by rw [ht]; rfl
-    have h2 := h.2 ht
+    have h2 := h.2.1 ht
     have e1 : readBE a' (p + 1) 4 = readBE a (p + 1) 4 := readBE4_congr (fun k hk => hb k (by omega))
     have e2 : readBE a' (p + 5) 4 = readBE a (p + 5) 4 := by
       apply readBE4_congr
@@ -505,6 +568,14 @@ theorem TgtOK.transfer {a a' : Array UInt8} {p op : Nat} (h : TgtOK a p op) (hw 
       exact this
     rw [e1, e2]
     exact ⟨hw _ h2.1, hw _ h2.2⟩
+  · intro hc
+    have hwd := opWidth_const hc
+    rw [readBE2_congr (fun k hk => hb k (by omega))]
+    have := h.2.2 hc
+    omega
+
+theorem TargetsOK.mono {nc nc' : Nat} {a : Array UInt8} (h : TargetsOK nc a) (hn : nc ≤ nc') : TargetsOK nc' a :=
+  fun p op hbd hop => (h p op hbd hop).transfer hn (fun _ h => h) (fun _ _ => rfl)
 
 /-- the instruction at an inner boundary is complete -/
 theorem Bd.fit {a : Array UInt8} {p : Nat} {op : UInt8} (h : Bd a p) (hw : Walk a 0 a.size) (hop : a[p]? = some op) :
@@ -517,9 +588,9 @@ theorem Bd.fit {a : Array UInt8} {p : Nat} {op : UInt8} (h : Bd a p) (hw : Walk 
       subst this; exact h3
   · have := h'.le; have := h.2; omega
 
-theorem TargetsOK.append_inst {a : Array UInt8} {op : Nat} {args : List Int} {bs : List UInt8}
-    (hw : Walk a 0 a.size) (ht : TargetsOK a) (hop : op < numOpcodes)
-    (hm : makeInstruction op args = .ok bs) (ha : ArgsOK a op args) : TargetsOK (a ++ bs.toArray) := by
+theorem TargetsOK.append_inst {nc : Nat} {a : Array UInt8} {op : Nat} {args : List Int} {bs : List UInt8}
+    (hw : Walk a 0 a.size) (ht : TargetsOK nc a) (hop : op < numOpcodes)
+    (hm : makeInstruction op args = .ok bs) (ha : ArgsOK nc a op args) : TargetsOK nc (a ++ bs.toArray) := by
   obtain ⟨rest, hbs, hl⟩ := makeInstruction_ok hm
   subst hbs
   have hpre : Pre a (a ++ (UInt8.ofNat op :: rest).toArray) :=
@@ -537,7 +608,7 @@ theorem TargetsOK.append_inst {a : Array UInt8} {op : Nat} {args : List Int} {bs
     have hgeta : a[p]? = some opb := by rw [← hpre.2 p hlt]; exact hget
     have hold := ht p opb ⟨hbdp, hlt⟩ hgeta
     have hfit := Bd.fit ⟨hbdp, hlt⟩ hw hgeta
-    exact hold.transfer (fun t h => h.pre hpre) (fun k hk => hpre.2 _ (by omega))
+    exact hold.transfer (Nat.le_refl _) (fun t h => h.pre hpre) (fun k hk => hpre.2 _ (by omega))
   · have hpe : p = a.size := by
       rcases hw'.comparable hbd.1 with h | h
       · cases h with
@@ -559,21 +630,25 @@ theorem TargetsOK.append_inst {a : Array UInt8} {op : Nat} {args : List Int} {bs
       intro k hk
       rw [Array.getElem?_append_right (by omega)]
       simp
-    constructor
+    refine ⟨?_, ?_, ?_⟩
     · intro hj
       obtain ⟨t, hargs, hwt⟩ := ha.1 hj
       rw [inst_read_jump hm hj hargs hat]
       exact hwt.pre hpre
     · intro htry
       subst htry
-      obtain ⟨t1, t2, hargs, h1, h2⟩ := ha.2 rfl
+      obtain ⟨t1, t2, hargs, h1, h2⟩ := ha.2.1 rfl
       obtain ⟨e1, e2⟩ := inst_read_try hm hargs hat
       rw [e1, e2]
       exact ⟨h1.pre hpre, h2.pre hpre⟩
+    · intro hc
+      obtain ⟨i, rest', hargs, hi⟩ := ha.2.2 hc
+      rw [inst_read_const hm hc hargs hat]
+      exact hi
 
-theorem TargetsOK.patch_inst {a : Array UInt8} {q : Nat} {opq : UInt8} {args : List Int} {bs : List UInt8}
-    (hw : Walk a 0 a.size) (ht : TargetsOK a) (hq : Walk a 0 q) (hop : a[q]? = some opq)
-    (hm : makeInstruction opq.toNat args = .ok bs) (ha : ArgsOK a opq.toNat args) : TargetsOK (patch a q bs) := by
+theorem TargetsOK.patch_inst {nc : Nat} {a : Array UInt8} {q : Nat} {opq : UInt8} {args : List Int} {bs : List UInt8}
+    (hw : Walk a 0 a.size) (ht : TargetsOK nc a) (hq : Walk a 0 q) (hop : a[q]? = some opq)
+    (hm : makeInstruction opq.toNat args = .ok bs) (ha : ArgsOK nc a opq.toNat args) : TargetsOK nc (patch a q bs) := by
   obtain ⟨rest, hbs, hl⟩ := makeInstruction_ok hm
   subst hbs
   have hofn : UInt8.ofNat opq.toNat = opq := by simp
@@ -594,23 +669,27 @@ theorem TargetsOK.patch_inst {a : Array UInt8} {q : Nat} {opq : UInt8} {args : L
           have : op' = opb := by rw [hgeta] at h1; injection h1 with h; exact h.symm
           subst this; exact h4.le
       · have := h.le; omega
-    exact (ht p opb hbdp hgeta).transfer hfw (fun k hk => patch_get_lt _ _ _ _ (by omega))
+    exact (ht p opb hbdp hgeta).transfer (Nat.le_refl _) hfw (fun k hk => patch_get_lt _ _ _ _ (by omega))
   · subst heq
     have hopb : opb = opq := by rw [patch_get_head _ _ _ _ hqs] at hget; injection hget with h; exact h.symm
     subst hopb
     have hat : InstAt (patch a p (opb :: rest)) p (opb :: rest) :=
       fun k hk => patch_get_mid _ _ _ _ hk (by simp [hl]; omega)
-    constructor
+    refine ⟨?_, ?_, ?_⟩
     · intro hj
       obtain ⟨t, hargs, hwt⟩ := ha.1 hj
       rw [inst_read_jump hm hj hargs hat]
       exact hfw _ hwt
     · intro htry
+      obtain ⟨t1, t2, hargs, h1, h2⟩ := ha.2.1 htry
       rw [htry] at hm
-      obtain ⟨t1, t2, hargs, h1, h2⟩ := ha.2 htry
       obtain ⟨e1, e2⟩ := inst_read_try hm hargs hat
       rw [e1, e2]
       exact ⟨hfw _ h1, hfw _ h2⟩
+    · intro hc
+      obtain ⟨i, rest', hargs, hi⟩ := ha.2.2 hc
+      rw [inst_read_const hm hc hargs hat]
+      exact hi
   · -- after the patched instruction
     have hnext : q + 1 + opWidth opq.toNat ≤ p := by
       rcases hq.comparable hbdp.1 with h | h
@@ -622,6 +701,53 @@ theorem TargetsOK.patch_inst {a : Array UInt8} {q : Nat} {opq : UInt8} {args : L
       · have := h.le; omega
     have hgeta : a[p]? = some opb := by
       rw [← patch_get_ge (opq :: rest) a q p (by simp [hl]; omega)]; exact hget
-    exact (ht p opb hbdp hgeta).transfer hfw (fun k hk => patch_get_ge _ _ _ _ (by simp [hl]; omega))
+    exact (ht p opb hbdp hgeta).transfer (Nat.le_refl _) hfw (fun k hk => patch_get_ge _ _ _ _ (by simp [hl]; omega))
+
+
+/-- patching the instruction at a boundary leaves the opcode byte of every boundary alone -/
+theorem Walk.patch_get {a : Array UInt8} {p k : Nat} {op : UInt8} {rest : List UInt8}
+    (hk : Walk a 0 k) (hp : Walk a 0 p) (hop : a[p]? = some op) (hl : rest.length = opWidth op.toNat) :
+    (patch a p (op :: rest))[k]? = a[k]? := by
+  have hps := getElem?_lt_of_some hop
+  rcases hp.comparable hk with h | h
+  · cases h with
+    | refl => rw [patch_get_head _ _ _ _ hps, hop]
+    | step op' h1 h2 h3 h4 =>
+      have : op' = op := by rw [hop] at h1; injection h1 with h; exact h.symm
+      subst this
+      have := h4.le
+      exact patch_get_ge _ _ _ _ (by simp [hl]; omega)
+  · have := h.le
+    rcases Nat.lt_or_ge k p with hlt | hge
+    · exact patch_get_lt _ _ _ _ hlt
+    · have : k = p := by omega
+      subst this
+      rw [patch_get_head _ _ _ _ hps, hop]
+
+/-- the instruction at `p` is a jump-class instruction or SETUPTRY (the ones `changeOperand` patches) -/
+def Jumpy (a : Array UInt8) (p : Nat) : Prop :=
+  ∃ op, a[p]? = some op ∧ (isJumpOp op.toNat = true ∨ op.toNat = OpSetupTry)
+
+theorem Jumpy.pre {a a' : Array UInt8} {p : Nat} (h : Jumpy a p) (hp : Pre a a') : Jumpy a' p := by
+  obtain ⟨op, h1, h2⟩ := h
+  exact ⟨op, by rw [hp.2 p (getElem?_lt_of_some h1)]; exact h1, h2⟩
+
+theorem jumpy_not_const {op : Nat} (h : isJumpOp op = true ∨ op = OpSetupTry) : isConstOp op = false := by
+  rcases h with h | h
+  · simp [isJumpOp] at h
+    rcases h with ((h | h) | h) | h <;> subst h <;> rfl
+  · subst h; rfl
+
+theorem findConst_lt {cs : Array Const} {k : CVal} {i : Nat} (h : findConst cs k = some i) : i < cs.size := by
+  unfold findConst at h
+  split at h
+  · cases h
+  · have := List.mem_of_find?_eq_some h
+    simpa using this
+
+theorem findFn_lt {cs : Array Const} {f : CFn} {i : Nat} (h : findFn cs f = some i) : i < cs.size := by
+  unfold findFn at h
+  have := List.mem_of_find?_eq_some h
+  simpa using this
 
 end UgoVerif.Compile
